@@ -210,12 +210,84 @@ def run(replay=None):
     if "FAILED" in str(rep.get("TetTable_gen.v", "")):
         ck.violation("translator", "the marching-tetrahedra table can no longer be read: " + rep["TetTable_gen.v"],
                      {"theorem_or_file": "Gen/TetTable_gen.v"}, no_input=True)
+    # ---- adaptive octrees: collectChildren (collapse) + the recursive dual walk (cell / face / edge procedures,
+    #      DCMesher::load with the minimum-level rule) against Render/OctTree.v on the implementation's own trees ----
+    import re as _re
+    ok_o, log_o = common.build_driver(**common.DRIVERS["otdriver"])
+    oprogs = []
+    for k in range(24 if quick else 600):
+        p = meshgen.closed_solid(rng, f"o{k}", rotate=rng.random() < 0.6, sharp=rng.random() < 0.6)
+        p.q = p.ncmd + 1
+        me = rng.choice([1e-8, 1e-3, 1e-2, 0.05, 0.2, 1.0, 1e9])
+        p.emit(f"octree {p.root} {rng.choice([3, 4, 4, 5])} {box} {f2h(me)} {rng.choice([1, 2, 4, 8])}")
+        oprogs.append(p)
+    oout, oskip = common.run_cases_sharded(os.path.join(common.BUILD, "cxx", "bin", "expr"), [p.text() for p in oprogs],
+                                          shards=8, timeout=900, single_timeout=300)
+    OQ = parse_out(oout)
+    ocases, ometa = [], []
+    for p in oprogs:
+        l = [x for x in OQ.get((p.cid, p.q), []) if x.startswith("OT ")]
+        if not l:
+            continue
+        m = _re.search(r"level=(\d+) pre=(.*) post=(.*) tris=(.*)", l[0])
+        if not m or " U" in l[0]:
+            ck.violation("octree:dump", "the octree dump is malformed (an ambiguous cell without a leaf?)",
+                         {"program": p.text(), "detail": l[0][:500]})
+            continue
+        tris = [tuple(int(v) for v in tr.split(">")) for tr in m.group(4).split()]
+        ocases.append(f"case {p.cid}\noctree {m.group(1)} pre {m.group(2).strip()} post {m.group(3).strip()} tris {m.group(4).strip()}\nend\n")
+        ometa.append((p, tris, l[0]))
+    stats.update(octrees=len(ocases), octree_collect_equal=0, octree_walk_equal=0, octree_hyp_hold=0, octree_hyp_failed=0,
+                 octree_collapsed_leaves=0, octree_mixed_level_triangles=0, octree_triangles=0)
+    if ok_o and ocases:
+        mo, moskip = common.run_cases_sharded(os.path.join(common.BUILD, "ocaml", "otdriver"), ocases, timeout=1800, single_timeout=900)
+        MO = parse_out(mo)
+        for p, tris, detail in ometa:
+            m = (MO.get((p.cid, 1)) or [""])[0]
+            if not m.startswith("OM "):
+                if not any(t.split()[1] == p.cid for t in moskip):
+                    ck.violation("correspondence", "the octree model gave no answer: " + m[:200],
+                                 {"program": p.text(), "theorem_or_stage": "correspondence:octree"}, no_input=True)
+                continue
+            f = dict(x.split("=", 1) for x in m.split()[1:])
+            # the property itself on exactly this tree: every directed edge as often as its reverse, no repeated vertex
+            cnt = {}
+            degenerate = 0
+            for a, b, c in tris:
+                if a == b or b == c or a == c:
+                    degenerate += 1
+                for e in ((a, b), (b, c), (c, a)):
+                    cnt[e] = cnt.get(e, 0) + 1
+            balanced = all(cnt.get((b, a), 0) == n for (a, b), n in cnt.items())
+            hyp = f["cons_pre"] == "true" and f["cons_post"] == "true" and f["bclear"] == "true" and f["conflicts"] == "0"
+            stats["octree_triangles"] += len(tris)
+            stats["octree_collapsed_leaves"] += int(f["collapsed"])
+            stats["octree_mixed_level_triangles"] += int(f["mixed"])
+            stats["octree_hyp_hold" if hyp else "octree_hyp_failed"] += 1
+            if f["bclear"] == "true" and (not balanced or degenerate):
+                ck.violation("unbalanced:dc:adaptive", "dual contouring over an octree with cells of different levels leaves an unpaired "
+                             "edge or a triangle with a repeated vertex", {"program": p.text(), "command": p.lines[p.q - 1], "model": m})
+            if f["collect_equal"] == "true":
+                stats["octree_collect_equal"] += 1
+            else:
+                ck.violation("correspondence", "DCTree<3>::collectChildren: the model's collapse gives a different octree",
+                             {"program": p.text(), "command": p.lines[p.q - 1], "model": m,
+                              "theorem_or_stage": "correspondence:octree-collect"}, no_input=True)
+            if f["walk_equal"] == "true":
+                stats["octree_walk_equal"] += 1
+            else:
+                ck.violation("correspondence", "Dual<3>::walk / DCMesher::load: the model emits different triangles on the implementation's octree",
+                             {"program": p.text(), "command": p.lines[p.q - 1], "model": m,
+                              "theorem_or_stage": "correspondence:octree-walk"}, no_input=True)
+    if not ok_o:
+        ck.violation("driver", "extracted octree model does not build", {"log": log_o[-3000:]}, no_input=True)
     if not proof["ok"]:
         ck.violation("proof", "Properties_C03.v no longer checks", {"theorem_or_file": proof["file"],
                      "log": proof["log"][-3000:]}, no_input=True)
     ck.coverage.update(stats)
     ck.coverage["evaluations"] = stats["renders"] + stats.get("grid_cases", 0)
-    ck.coverage["traces_validated_against_impl"] = stats.get("grid_equal", 0) + stats.get("sxgrid_equal", 0)
+    ck.coverage["traces_validated_against_impl"] = (stats.get("grid_equal", 0) + stats.get("sxgrid_equal", 0) +
+                                                     stats.get("octree_walk_equal", 0) + stats.get("octree_collect_equal", 0))
     ck.coverage["translators"] = rep
     ck.coverage["samples"] = samples
     ck.coverage["rule"] = "closed CSG solids (60% of primitives rotated) x 3 algorithms x workers {1,2,3,4,8,16} x min_feature x max_err {1e-8, 1e-3, -1 = no merging}"
